@@ -475,6 +475,7 @@ class SymCtx(BaseCtx):
         self.vars = {}  # name -> z3 const
         self.timeout_ms = timeout_ms
         self.nchoices = 0
+        self.failed_in_prefix = False
         self.forced = None  # (prefix values, depth): explore only paths whose first choices equal the prefix
         self.probe_depth = None  # cut every path after this many choices (used to enumerate prefixes)
         self.cut = False
@@ -658,6 +659,8 @@ class SymCtx(BaseCtx):
             return True
         if not cond:
             if self.pos < len(self.prefix):
+                # this failure was recorded when the prefix was first explored; remember that the path is a failing one
+                self.failed_in_prefix = True
                 return False
             self._record_violation(label, detail, None)
             return False
@@ -848,7 +851,7 @@ class Explorer:
                 do_val = self.validate == "all" or (
                     isinstance(self.validate, int) and self.validate > 0 and self.stats.paths % self.validate == 1
                 )
-                if (do_val or len(self.samples) < 3) and not ctx.violations:
+                if (do_val or len(self.samples) < 3) and not ctx.violations and not ctx.failed_in_prefix:
                     try:
                         mv = ctx.model_values()
                         sym_events = [_ev_eval(e, mv, ctx) for e in ctx.events]
